@@ -276,6 +276,16 @@ pub fn run(o: &Opts, rec: &mut Recorder) {
     for l in directed_fresh_typesets(o.seed) {
         exec(&l, rec);
     }
+    // per-type boundary values of every RDATA codec (decode -> encode -> decode, model-compared)
+    for l in directed_rdata_boundaries(o.seed) {
+        rec.stat("line.rt.directed-rdata");
+        exec(&l, rec);
+    }
+    // names after the 0x3FFF / 0x4000 boundary of compression pointers, in whole messages
+    for l in directed_offset_boundary() {
+        rec.stat("line.rt.directed-offset");
+        exec(&l, rec);
+    }
     use crate::props::c01;
     use crate::props::msgemit::{fnv1a, gen_message_tier};
     let mut r = Rng::new(o.seed ^ 0x00C0_2B00);
@@ -314,6 +324,305 @@ pub fn run(o: &Opts, rec: &mut Recorder) {
             }
         }
     }
+}
+
+/// A response with the question `example. A` and one answer record (owner = pointer to the question
+/// name) of type `ty` with the given RDATA octets, as wire bytes.
+fn rec_message(id: u16, ty: u16, rdata: &[u8]) -> Vec<u8> {
+    let mut b = vec![];
+    b.extend(id.to_be_bytes());
+    b.extend([0x81, 0x80]);
+    b.extend([0, 1, 0, 1, 0, 0, 0, 0]);
+    b.extend([7]);
+    b.extend(b"example");
+    b.extend([0, 0, 1, 0, 1]);
+    b.extend([0xC0, 0x0C]);
+    b.extend(ty.to_be_bytes());
+    b.extend([0, 1, 0, 0, 0, 60]);
+    b.extend((rdata.len() as u16).to_be_bytes());
+    b.extend(rdata);
+    b
+}
+
+/// wire names for the boundaries: root, a pointer to the question name, a plain mixed-case name,
+/// a 63-octet label, a 255-octet name
+fn boundary_names() -> Vec<Vec<u8>> {
+    let mut long = vec![];
+    for (i, n) in [63usize, 63, 63, 61].iter().enumerate() {
+        long.push(*n as u8);
+        long.extend(std::iter::repeat(b'a' + i as u8).take(*n));
+    }
+    long.push(0);
+    assert_eq!(long.len(), 255);
+    let mut l63 = vec![63u8];
+    l63.extend(std::iter::repeat(b'L').take(63));
+    l63.extend([0xC0, 0x0C]);
+    vec![vec![0], vec![0xC0, 0x0C], b"\x03WwW\x07eXample\x00".to_vec(), b"\x01a\xC0\x0C".to_vec(), l63, long]
+}
+
+/// Directed family (stage 4): for EVERY RDATA codec, the boundary values of every field — empty and
+/// maximal octet strings, 255-octet character strings, 0 and 65535 (and i32 extremes), every kind of
+/// embedded name, lengths one short / one long, the refusals of each decoder; SVCB key order /
+/// duplicates / every parameter kind; type bitmaps with windows 0..255, empty and over-long windows.
+fn directed_rdata_boundaries(seed: u64) -> Vec<String> {
+    let mut r = Rng::new(seed ^ 0xB0DA_7A01);
+    let mut v = vec![];
+    let mut id = 0x5000u16;
+    let mut push = |v: &mut Vec<String>, ty: u16, rdata: &[u8]| {
+        id = id.wrapping_add(1);
+        v.push(format!("rt {}", hex(&rec_message(id, ty, rdata))));
+    };
+    let names = boundary_names();
+    let u16s = [0u16, 1, 255, 256, 32768, 65535];
+    let cat = |parts: &[&[u8]]| -> Vec<u8> { parts.iter().flat_map(|p| p.iter().copied()).collect() };
+    // A / AAAA
+    for n in [0usize, 3, 4, 5] {
+        push(&mut v, 1, &vec![0xFF; n]);
+    }
+    push(&mut v, 1, &[0, 0, 0, 0]);
+    for n in [15usize, 16, 17] {
+        push(&mut v, 28, &vec![0xFE; n]);
+    }
+    push(&mut v, 28, &[0; 16]);
+    // name-only types, MX, SRV, NAPTR replacement, RRSIG signer, NSEC next, SVCB target
+    for nmw in &names {
+        for ty in [2u16, 5, 12, 65305] {
+            push(&mut v, ty, nmw);
+        }
+        for x in [0u16, 65535] {
+            push(&mut v, 15, &cat(&[&x.to_be_bytes(), nmw]));
+            push(&mut v, 33, &cat(&[&x.to_be_bytes(), &x.to_be_bytes(), &x.to_be_bytes(), nmw]));
+            push(&mut v, 35, &cat(&[&x.to_be_bytes(), &x.to_be_bytes(), &[1, b'U'], &[0], &[0], nmw]));
+            push(&mut v, 64, &cat(&[&x.to_be_bytes(), nmw]));
+            push(&mut v, 65, &cat(&[&x.to_be_bytes(), nmw, &[0, 3, 0, 2, 1, 187]]));
+        }
+        push(&mut v, 47, &cat(&[nmw, &[0, 1, 0x40]]));
+        push(&mut v, 47, nmw);
+        let fixed = [0u8, 1, 8, 2, 0, 0, 14, 16, 0xFF, 0xFF, 0xFF, 0xFF, 0, 0, 0, 0, 0xAB, 0xCD];
+        push(&mut v, 46, &cat(&[&fixed, nmw, &[1, 2, 3]]));
+        push(&mut v, 46, &cat(&[&fixed, nmw]));
+        push(&mut v, 24, &cat(&[&fixed, nmw, &[9]]));
+        // SOA with both names of this kind and the i32 extremes
+        for ints in [[0u32, 0, 0, 0, 0], [u32::MAX, 0x8000_0000, 0x7FFF_FFFF, 0xFFFF_FFFF, u32::MAX]] {
+            let mut d = cat(&[nmw, nmw]);
+            for i in ints {
+                d.extend(i.to_be_bytes());
+            }
+            push(&mut v, 6, &d);
+        }
+    }
+    // TXT / HINFO / NAPTR strings: empty, one octet, 255 octets, many strings
+    let s255: Vec<u8> = std::iter::once(255u8).chain(std::iter::repeat(b'z').take(255)).collect();
+    for d in [vec![0u8], vec![1, b'x'], s255.clone(), cat(&[&s255, &s255, &[0], &[2, b'a', b'b']]), vec![5, b'a'], vec![]] {
+        push(&mut v, 16, &d);
+    }
+    for (c, o) in [(&[0u8][..], &[0u8][..]), (&s255[..], &[0u8][..]), (&[0u8][..], &s255[..]), (&s255[..], &s255[..]), (&[3, b'c', b'p', b'u'][..], &[][..])] {
+        push(&mut v, 13, &cat(&[c, o]));
+    }
+    for fl in [&[0u8][..], &[1, b'a'][..], &[2, b'A', b'9'][..], &[1, b'-'][..], &s255[..]] {
+        push(&mut v, 35, &cat(&[&[0, 1, 0, 2], fl, &[0], &s255, &[0]]));
+        push(&mut v, 35, &cat(&[&[0, 1, 0, 2], fl, &s255, &[0], &[0xC0, 0x0C]]));
+    }
+    // NULL / unknown types / OPENPGPKEY: 1 octet, a few, long
+    for n in [1usize, 2, 255, 256, 4000] {
+        let d = r.bytes(n);
+        for ty in [10u16, 99, 65280, 61, 3] {
+            push(&mut v, ty, &d);
+        }
+    }
+    // the fixed-field blob types: every fixed field at 0 / max, the trailing blob empty / 1 / long
+    for blob in [0usize, 1, 32, 600] {
+        let tail = r.bytes(blob);
+        for x in [0u8, 1, 255] {
+            let w = [x, x];
+            push(&mut v, 43, &cat(&[&w, &[x, x], &tail]));
+            push(&mut v, 59, &cat(&[&w, &[x, x], &tail]));
+            for proto in [3u8, 2, 0] {
+                push(&mut v, 48, &cat(&[&w, &[proto, x], &tail]));
+                push(&mut v, 60, &cat(&[&w, &[proto, x], &tail]));
+            }
+            push(&mut v, 52, &cat(&[&[x, x, x], &tail]));
+            push(&mut v, 53, &cat(&[&[x, x, x], &tail]));
+            push(&mut v, 44, &cat(&[&[x, x], &tail]));
+            push(&mut v, 37, &cat(&[&w, &w, &[x], &tail]));
+        }
+    }
+    // KEY: every flags word shape (reserved bits, extended flag), protocols, algorithms
+    for fl in [0u16, 0x0001, 0x000F, 0x0100, 0x0300, 0x4000, 0x8000, 0xC000, 0x0010, 0x0400, 0x2000, 0x1000, 0xFFFF] {
+        for (p, a) in [(3u8, 8u8), (0, 0), (255, 255)] {
+            push(&mut v, 25, &cat(&[&fl.to_be_bytes(), &[p, a], &[1, 2, 3]]));
+        }
+    }
+    push(&mut v, 25, &[0, 0, 3]);
+    // NSEC3PARAM / NSEC3: hash algorithm, flags, iterations, salt and hash lengths 0 / 1 / 255 / over
+    for alg in [1u8, 0, 2] {
+        for fl in [0u8, 1, 2, 255] {
+            push(&mut v, 51, &[alg, fl, 0, 10, 0]);
+        }
+    }
+    for it in u16s {
+        for sl in [0usize, 1, 255] {
+            let salt = r.bytes(sl);
+            push(&mut v, 51, &cat(&[&[1, 1], &it.to_be_bytes(), &[sl as u8], &salt]));
+            for hl in [0usize, 1, 20, 255] {
+                let hash = r.bytes(hl);
+                push(&mut v, 50, &cat(&[&[1, 0], &it.to_be_bytes(), &[sl as u8], &salt, &[hl as u8], &hash, &[0, 1, 0x40]]));
+            }
+        }
+    }
+    push(&mut v, 51, &[1, 0, 0, 1, 5, 1, 2]); // salt shorter than declared
+    push(&mut v, 50, &[1, 0, 0, 1, 0, 9, 1, 2]); // hash shorter than declared
+    // CAA: flags, tag lengths 0 / 1 / 15 / 16, non-alphanumeric tag, empty / long value
+    for fl in [0u8, 1, 127, 128, 255] {
+        for tl in [0usize, 1, 15, 16] {
+            let tag: Vec<u8> = (0..tl).map(|i| b"aZ09"[i % 4]).collect();
+            for vl in [0usize, 1, 300] {
+                push(&mut v, 257, &cat(&[&[fl, tl as u8], &tag, &r.bytes(vl)]));
+            }
+        }
+    }
+    push(&mut v, 257, &[0, 5, b'i', b's', b'-', b'u', b'e', 1]);
+    push(&mut v, 257, &[0, 9, b'i', b's']);
+    // CSYNC: flags (low two bits, the masked bits, the unmasked high octet), serial extremes
+    for fl in [0u16, 1, 2, 3, 4, 0x80, 0xFC, 0x0100, 0xFF00, 0xFF03, 0xFFFF] {
+        for serial in [0u32, u32::MAX] {
+            push(&mut v, 62, &cat(&[&serial.to_be_bytes(), &fl.to_be_bytes(), &[0, 1, 0x40]]));
+        }
+    }
+    // type bitmaps (NSEC with root next name): every window number, bitmap lengths 0 / 1 / 32 / 33,
+    // empty bitmaps, windows out of order / repeated, a bitmap cut short, bit 0, the last bit
+    for w in [0u8, 1, 2, 127, 128, 254, 255] {
+        for bl in [0usize, 1, 2, 31, 32, 33] {
+            let mut bm = vec![0u8; bl];
+            if bl > 0 {
+                bm[0] = 0x80;
+                bm[bl - 1] |= 0x01;
+            }
+            push(&mut v, 47, &cat(&[&[0], &[w, bl as u8], &bm]));
+        }
+        push(&mut v, 47, &[0, w, 3, 0, 0, 0]); // a window with no type: an empty window
+        push(&mut v, 47, &[0, w, 2, 0xFF]); // bitmap shorter than declared
+        push(&mut v, 47, &[0, w]); // no length octet
+        push(&mut v, 62, &cat(&[&[0, 0, 0, 1, 0, 3], &[w, 1, 0xFF]]));
+        push(&mut v, 50, &cat(&[&[1, 1, 0, 5, 0, 1, 7], &[w, 32], &[0xFF; 32]]));
+    }
+    for ws in [&[0u8, 1][..], &[1, 0][..], &[3, 3][..], &[0, 255, 1][..], &[255, 0][..]] {
+        let mut d = vec![0u8];
+        for w in ws {
+            d.extend([*w, 1, 0x42]);
+        }
+        push(&mut v, 47, &d);
+    }
+    let mut all = vec![0u8];
+    for w in 0..=255u8 {
+        all.extend([w, 1, 0x01]);
+    }
+    push(&mut v, 47, &all);
+    // SVCB / HTTPS parameters: every key kind at its boundaries, key order, duplicates
+    let p = |k: u16, val: &[u8]| -> Vec<u8> { cat(&[&k.to_be_bytes(), &(val.len() as u16).to_be_bytes(), val]) };
+    let head = [0u8, 1, 0];
+    let long_id: Vec<u8> = std::iter::once(255u8).chain(std::iter::repeat(b'h').take(255)).collect();
+    let params: Vec<Vec<u8>> = vec![
+        p(0, &[]), p(0, &[0, 1]), p(0, &[0, 1, 0, 4, 0, 6]), p(0, &[0]), p(0, &[0, 1, 0]),
+        p(1, &[]), p(1, &[2, b'h', b'2']), p(1, &[2, b'h', b'2', 2, b'h', b'3']), p(1, &[0]), p(1, &long_id),
+        p(1, &[2, 0xC3, 0x28]), p(1, &[3, b'h']), p(1, &[2, 0xC3, 0xA9]),
+        p(2, &[]), p(2, &[0]),
+        p(3, &[]), p(3, &[1]), p(3, &[1, 187]), p(3, &[0, 0]), p(3, &[0xFF, 0xFF]), p(3, &[1, 187, 9]), p(3, &[1, 187, 9, 9, 9]),
+        p(4, &[]), p(4, &[192, 0, 2, 1]), p(4, &[192, 0, 2, 1, 192, 0, 2, 2]), p(4, &[192, 0, 2]), p(4, &[192, 0, 2, 1, 5]),
+        p(5, &[]), p(5, &[1]), p(5, &r.bytes(300)),
+        p(6, &[]), p(6, &[0x20; 16]), p(6, &[0x20; 32]), p(6, &[0x20; 15]), p(6, &[0x20; 17]),
+        p(7, &[]), p(7, &[1, 2, 3]), p(65279, &[1]), p(65280, &[]), p(65280, &[7]), p(65534, &[7, 7]), p(65535, &[]), p(65535, &[1]),
+        p(1000, &r.bytes(2000)),
+    ];
+    for ty in [64u16, 65] {
+        push(&mut v, ty, &head);
+        push(&mut v, ty, &[0, 0, 0]); // AliasMode
+        for q in &params {
+            push(&mut v, ty, &cat(&[&head, q]));
+        }
+        // order: increasing, equal (duplicate), decreasing; trailing octets after the last parameter
+        let (a1, a3, a4, a7) = (p(1, &[2, b'h', b'2']), p(3, &[1, 187]), p(4, &[192, 0, 2, 1]), p(7, &[9]));
+        for combo in [vec![&a1, &a3, &a4, &a7], vec![&a1, &a1], vec![&a3, &a1], vec![&a7, &a4], vec![&a1, &a3, &a3], vec![&a4, &a7, &a1]] {
+            let mut d = head.to_vec();
+            for q in combo {
+                d.extend(q.iter());
+            }
+            push(&mut v, ty, &d);
+            for extra in 1..=3usize {
+                let mut t = d.clone();
+                t.extend(std::iter::repeat(0u8).take(extra));
+                push(&mut v, ty, &t);
+            }
+        }
+        // a parameter whose declared length runs past the RDATA
+        push(&mut v, ty, &cat(&[&head, &[0, 3, 0, 9, 1, 187]]));
+    }
+    v
+}
+
+/// Whole messages (stage 4) in which names are written just below, at and above offset 0x3FFF /
+/// 0x4000 (the last offset a compression pointer can address / a candidate is stored at) and are
+/// reused afterwards; and messages with more than 120 names and more than 64 suffix candidates.
+fn directed_offset_boundary() -> Vec<String> {
+    use hickory_proto::op::{Message, MessageType, OpCode, Query};
+    use hickory_proto::rr::rdata::{A, NS, NULL};
+    use hickory_proto::rr::{Name, RData, Record, RecordType};
+    let nm = |l: &[&str]| Name::from_labels(l.iter().map(|x| x.as_bytes())).unwrap();
+    let mut v = vec![];
+    for delta in [-40i32, -20, -12, -3, -2, -1, 0, 1, 2, 3, 12, 30] {
+        let mut m = Message::new(0x3F00u16.wrapping_add(delta as u16), MessageType::Response, OpCode::Query);
+        m.add_query(Query::new(nm(&["q", "example"]), RecordType::NS));
+        m.add_answer(Record::from_rdata(nm(&["early", "example"]), 60, RData::NS(NS(nm(&["ns", "early", "example"])))));
+        // filler so that the next record's owner name starts at 0x3FFF + delta
+        let so_far = m.to_vec().unwrap().len();
+        let target = (0x3FFF + delta) as usize;
+        let mut left = target - so_far;
+        while left > 0 {
+            // a NULL record with a pointer owner: 2 + 10 + n octets
+            let n = (left.saturating_sub(12)).min(4000);
+            if left < 13 {
+                break;
+            }
+            m.add_answer(Record::from_rdata(nm(&["q", "example"]), 60, RData::NULL(NULL::with(vec![0x55; n.max(1)]))));
+            left = target.saturating_sub(m.to_vec().unwrap().len());
+        }
+        // names written around the boundary, each reused right after and in the next sections
+        m.add_answer(Record::from_rdata(nm(&["at", "edge", "example"]), 60, RData::NS(NS(nm(&["ns", "at", "edge", "example"])))));
+        m.add_answer(Record::from_rdata(nm(&["at", "edge", "example"]), 60, RData::NS(NS(nm(&["ns2", "at", "edge", "example"])))));
+        m.add_authority(Record::from_rdata(nm(&["edge", "example"]), 60, RData::NS(NS(nm(&["ns", "at", "edge", "example"])))));
+        m.add_authority(Record::from_rdata(nm(&["beyond", "edge", "example"]), 60, RData::NS(NS(nm(&["ns", "early", "example"])))));
+        m.add_additional(Record::from_rdata(nm(&["ns", "at", "edge", "example"]), 60, RData::A(A::new(10, 0, 0, 1))));
+        m.add_additional(Record::from_rdata(nm(&["ns", "beyond", "edge", "example"]), 60, RData::A(A::new(10, 0, 0, 2))));
+        if let Ok(b) = m.to_vec() {
+            v.push(format!("rt {}", hex(&b)));
+        }
+    }
+    // > 120 names (COMPRESSED_NAME_LIMIT) and > 64 suffix candidates, with reuse before and after both
+    for (n, labels) in [(59usize, 1usize), (60, 1), (61, 1), (118, 1), (119, 1), (120, 1), (121, 1), (130, 1), (31, 2), (32, 2), (33, 2), (20, 3), (21, 3), (22, 3)] {
+        let mut m = Message::new(0x7800 + n as u16, MessageType::Response, OpCode::Query);
+        m.add_query(Query::new(nm(&["q", "example"]), RecordType::A));
+        for i in 0..n {
+            let ls: Vec<String> = (0..labels).map(|j| format!("n{i}x{j}")).collect();
+            let mut refs: Vec<&str> = ls.iter().map(|x| x.as_str()).collect();
+            refs.push("example");
+            m.add_answer(Record::from_rdata(nm(&refs), 60, RData::A(A::new(10, 1, (i / 256) as u8, i as u8))));
+        }
+        // reuse of the first, a middle and the last names, and of fresh ones, after the limits
+        for (k, who) in [0usize, n / 2, n - 1].iter().enumerate() {
+            let ls: Vec<String> = (0..labels).map(|j| format!("n{who}x{j}")).collect();
+            let mut refs: Vec<&str> = vec!["www"];
+            refs.extend(ls.iter().map(|x| x.as_str()));
+            refs.push("example");
+            m.add_authority(Record::from_rdata(nm(&refs[1..]), 60, RData::NS(NS(nm(&refs)))));
+            m.add_additional(Record::from_rdata(nm(&refs), 60, RData::A(A::new(10, 2, 0, k as u8))));
+        }
+        m.add_additional(Record::from_rdata(nm(&["fresh", "tail", "example"]), 60, RData::A(A::new(10, 3, 0, 1))));
+        m.add_additional(Record::from_rdata(nm(&["www", "fresh", "tail", "example"]), 60, RData::A(A::new(10, 3, 0, 2))));
+        if let Ok(b) = m.to_vec() {
+            v.push(format!("rt {}", hex(&b)));
+        }
+    }
+    v
 }
 
 /// `tsnew` lines: type sets over the boundaries of the window / bitmap encoding
